@@ -13,7 +13,7 @@ META = {
     "rule": (
         "Case = program with create_callback ... code ... result(), wait_for_callback and invoke (payloads: strings for "
         "callbacks, JSON values for invokes; tenant ids; timeouts), at top level and in child contexts/branches, x a "
-        "simulated external party per operation: outcome in {success, failure, timeout, heartbeat timeout, cancel, stop}, "
+        "(also inside a parallel branch that is re-run within one invocation next to a slow sibling); simulated external party per operation: outcome in {success, failure, timeout, heartbeat timeout, cancel, stop}, "
         "with or without an error object, delivered at a generated instant (immediately in the START response, before "
         "the next backend call of the same invocation, or after the k-th suspension) x crash plans x schedules x backend "
         "flags (paged checkpoint responses). Oracle: the callback id is the one the backend issued, identical in every "
@@ -77,8 +77,27 @@ def cases(draw):
 
     n = draw(st.integers(1, 3))
     for i in range(n):
-        wrap = draw(st.sampled_from(["top", "top", "try", "child"]))
-        if wrap == "top":
+        wrap = draw(st.sampled_from(["top", "top", "try", "child", "rerun"]))
+        if wrap == "rerun":
+            # a branch that holds a callback / invoke and is run again INSIDE one invocation: it parks on a 1 s timer while
+            # a sibling keeps the map/parallel alive, so the executor's timer thread resubmits it
+            k2 = draw(st.sampled_from(["cb", "invoke", "invoke-timeout"]))
+            bp = f"root/{i}/0"
+            if k2 == "cb":
+                ext_for(f"{bp}/0", "cb")
+                branch = [{"op": "callback", "between": [{"op": "wait", "secs": 1}]}, draw(G.steps(allow_fail=False))]
+            elif k2 == "invoke":
+                ext_for(f"{bp}/1", "invoke")
+                branch = [{"op": "wait", "secs": 1}, {"op": "invoke", "fn": "fn-a", "payload": draw(G.json_values), "tenant": None}]
+            else:
+                ext_for(f"{bp}/0", "invoke")
+                branch = [{"op": "invoke", "fn": "fn-a", "payload": draw(G.json_values), "tenant": None, "timeout": 1}]
+            for e in ext[-1:]:
+                e["when"] = "between"
+                e["after_pending"] = 0
+            slow = [{"op": "step", "beh": {"kind": "ret", "v": 7}, "sem": "least", "retry": {"kind": "none"}, "sleep": draw(st.sampled_from([2.5, 3.5]))}]
+            body.append({"op": "parallel", "branches": [branch, slow], "cfg": {"max_concurrency": None, "completion": {"min": None, "tol": 2, "pct": None}}})
+        elif wrap == "top":
             body.append(stmt("root", i))
         elif wrap == "try":
             inner = stmt(f"root/{i}", "t").copy() if False else None
